@@ -13,7 +13,7 @@ impl Monitor for C12 {
         "C12"
     }
     fn gens(&self, tier: Tier) -> Vec<Gen> {
-        vec![gen("histories", tier.pick(3_000, 400_000, 2)), gen("mask-limited", tier.pick(120, 6_000, 1))]
+        vec![gen("histories", tier.pick(3_000, 400_000, 2)), gen("mask-limited", tier.pick(240, 12_000, 1))]
     }
     fn rule(&self) -> String {
         "histories of 100-600 uplinks per (region, front-end) with accepted/rejected/confirmed downlinks (RX1, RX2, Class C) placed around n = 63/64/65/95/96/97/127/128 uplinks since the last accepted downlink, ADR toggles and application data-rate overrides; every uplink is decoded by the reference codec and compared with a step-by-step model of the statement (DevAddr, MType, ACK, ADR, ADRACKReq, data rate). mask-limited: US915/AU915 devices commanded (LinkADRReq, ChMaskCntl 7) onto the 500 kHz rate with every 125 kHz channel off, then 70-140 unanswered uplinks: the back-off must never move the device to a rate that has no enabled channel (every uplink goes out, at the 500 kHz rate, on an enabled channel). Class = (region, n-class at event, event kind, rate).".into()
@@ -31,7 +31,7 @@ impl Monitor for C12 {
         if tier == Tier::Sanitizer {
             vec!["uplinks_checked"]
         } else {
-            vec!["uplinks_checked", "adrackreq_expected", "backoff_step_expected", "ack_expected", "accepted_downlink", "rejected_downlink", "adr_toggle", "at_lowest_rate_with_n_ge_64", "classc_downlink", "two_classc_downlinks", "mask_limited_uplinks", "adr_set_again", "classc_then_classa_downlink", "radio_faults", "port0_empty_uplinks"]
+            vec!["uplinks_checked", "adrackreq_expected", "backoff_step_expected", "ack_expected", "accepted_downlink", "rejected_downlink", "adr_toggle", "at_lowest_rate_with_n_ge_64", "classc_downlink", "two_classc_downlinks", "mask_limited_uplinks", "adr_set_again", "classc_then_classa_downlink", "radio_faults", "port0_empty_uplinks", "lazy_application_histories", "one_subband_uplinks", "one_subband_backoff_steps"]
         }
     }
 
@@ -48,7 +48,88 @@ impl Monitor for C12 {
 }
 
 /// Fixed plan, 500 kHz uplink rate, no 125 kHz channel enabled: ADR back-off has nowhere to go.
+/// A device at the 500 kHz uplink rate whose mask keeps one sub-band (its eight 125 kHz channels and
+/// its 500 kHz channel, ChMaskCntl 5): a lower rate exists and is usable, so ADRACKReq appears after
+/// 64 unanswered uplinks and the rate steps down at 96 and 128 - whichever sub-band it is.
+fn one_subband(front: Front, reg: Reg, rng: &mut Prng, col: &mut Collector) {
+    let opts = DevOpts { rng_seed: Some(rng.next_u64()), ..Default::default() };
+    let Ok((mut dev, net)): Result<(Dev, Net), _> = abp_dev(front, reg, rng, &opts, |_| {}) else {
+        col.event("harness_session_json_rejected");
+        return;
+    };
+    let dr500 = if reg == Reg::US915 { 4u8 } else { 6u8 };
+    let sb = rng.below(8) as u32;
+    dev.set_datarate(*rng.pick(&uplink_drs(reg)));
+    let cmd = link_adr_req(dr500, 0xF, 1 << sb, 5, 1);
+    let f = net.mac_downlink(1, &cmd, rng.bool());
+    let script = if rng.bool() { Script::rx1(f) } else { Script::rx2(f) };
+    let r = dev.transact(Action::Send { data: &[1], port: 3, confirmed: false }, &script);
+    if let Resp::Panic(m, l) = &r {
+        col.violation(&format!("C12|panic|{}|{}", reg.name(), short_loc(l)), "device panicked during an ADR history", json!({"msg": m, "loc": l, "phase": "one-subband setup"}));
+        return;
+    }
+    let snap = dev.snapshot();
+    let m = &snap.region.channel_mask;
+    let state_ok = (0..8).all(|b| m[b] == if b as u32 == sb { 0xFF } else { 0 }) && m[8] == 1 << sb && snap.data_rate == dr500;
+    if !state_ok {
+        col.event("one_subband_state_not_reached");
+        return;
+    }
+    let total = rng.range(100, 141) as usize;
+    let mut up_min = 1u32;
+    let mut n = 0u32;
+    let mut dr = dr500;
+    for step in 0..total {
+        let ev0 = dev.ev_len();
+        let resp = dev.transact(Action::Send { data: &[step as u8], port: 3, confirmed: false }, &Script::silent());
+        let ctx = |what: &str| json!({"what": what, "front": front.name(), "region": reg.name(), "unanswered_uplinks_before": n, "sub_band": sb + 1, "model_dr": dr, "resp": format!("{:?}", resp)});
+        if let Resp::Panic(m, l) = &resp {
+            col.violation(&format!("C12|one-subband|panic|{}|{}", reg.name(), n_class(n)), "device panicked or did not return during an unanswered run", json!({"msg": m, "loc": l, "ctx": ctx("panic")}));
+            return;
+        }
+        let txs = dev.tx_since(ev0);
+        let Some(Ev::Tx { bytes, sf, bw, freq, .. }) = txs.first().cloned() else {
+            col.violation(&format!("C12|one-subband|no-uplink|{}|{}", reg.name(), n_class(n)), "send did not hand a frame to the radio", ctx("no-uplink"));
+            return;
+        };
+        col.event("one_subband_uplinks");
+        col.eval(&format!("one-subband|{}|sb{}|{}|{}", reg.name(), sb + 1, n_class(n), front.name()));
+        let Some(u) = net.decode_uplink(&bytes, up_min) else {
+            col.violation(&format!("C12|undecodable-uplink|{}", front.name()), "uplink does not decode under the session keys/address", json!({"frame": hex(&bytes)}));
+            return;
+        };
+        up_min = u.fcnt + 1;
+        let exp_req = n >= 64 && next_lower(reg, dr).is_some();
+        if u.view.adr_ack_req() != exp_req {
+            col.violation(&format!("C12|one-subband|adrackreq|expected={}|n={}|{}|sb{}", exp_req, n_class(n), reg.name(), sb + 1), "ADRACKReq differs from the model although a lower rate is usable on the enabled sub-band", ctx("adrackreq"));
+            return;
+        }
+        if Some((sf, bw)) != reg.lora_dr(dr) {
+            col.violation(&format!("C12|one-subband|rate|{}|n={}|model=dr{}|got=sf{}bw{}|sb{}", reg.name(), n_class(n), dr, sf, bw / 1000, sb + 1), "uplink data rate differs from the model (back-off step missing, extra or to the wrong rate)", ctx("rate"));
+            return;
+        }
+        let want_500 = bw == 500_000;
+        match reg.fixed_channel_of(freq) {
+            Some(k) if (want_500 && k == 64 + sb) || (!want_500 && k / 8 == sb) => {}
+            other => {
+                col.violation(&format!("C12|one-subband|channel|{}|{}", reg.name(), n_class(n)), "uplink on a channel the mask does not enable (or of the wrong bandwidth)", json!({"channel": other, "freq": freq, "ctx": ctx("channel")}));
+                return;
+            }
+        }
+        n += 1;
+        if n >= 96 && (n - 64) % 32 == 0 {
+            if let Some(l) = next_lower(reg, dr) {
+                dr = l;
+                col.event("one_subband_backoff_steps");
+            }
+        }
+    }
+}
+
 fn mask_limited(front: Front, reg: Reg, rng: &mut Prng, col: &mut Collector) {
+    if rng.bool() {
+        return one_subband(front, reg, rng, col);
+    }
     let opts = DevOpts { rng_seed: Some(rng.next_u64()), ..Default::default() };
     let Ok((mut dev, net)): Result<(Dev, Net), _> = abp_dev(front, reg, rng, &opts, |_| {}) else {
         col.event("harness_session_json_rejected");
@@ -170,6 +251,10 @@ fn history(front: Front, reg: Reg, rng: &mut Prng, col: &mut Collector) {
     let targets = [63u32, 64, 65, 66, 95, 96, 97, 98, 127, 128, 129, 160, 161, 5, 1, 200, 225, 257, 300];
     let mut next_target = *rng.pick(&targets);
     let mut recent: Vec<String> = vec![];
+    let lazy_app = rng.chance(1, 4);
+    if lazy_app {
+        col.event("lazy_application_histories");
+    }
     for step in 0..total {
         // application-level events
         if rng.chance(1, 300) {
@@ -408,7 +493,11 @@ fn history(front: Front, reg: Reg, rng: &mut Prng, col: &mut Collector) {
             let d = dev.snapshot().data_rate;
             models = vec![(models[0].0, d)];
         }
-        let _ = dev.take_downlinks();
+        // one application in four never collects its downlinks (the queue fills up; that must not
+        // change which downlinks count as accepted)
+        if !lazy_app {
+            let _ = dev.take_downlinks();
+        }
         recent.push(format!("up#{} n={} {} -> {}", step, n, plan, resp.kind()));
         if recent.len() > 10 {
             recent.remove(0);
